@@ -144,8 +144,16 @@ def run_property(pid, tier='quick', seed=0, repo=None, write=True, quiet=False,
     mod = importlib.import_module('ginsa.rules.' + pid.lower())
     mod.run(ctx)
     extra = {}
-    if tier == 'thorough' and hasattr(mod, 'thorough'):
-      extra = mod.thorough(ctx, seed) or {}
+    selftest_bad = []
+    if tier == 'thorough':
+      from .selftest import selftest
+      st = selftest(pid, repo)
+      selftest_bad = [r for r in st['results'] if r['status'] in ('MISSED', 'analysis-error')]
+      extra = {'seeded_variants': st['seeds'],
+               'seeded_reported': sum(1 for r in st['results'] if r['status'] == 'reported'),
+               'seeded_skipped': sum(1 for r in st['results'] if r['status'] == 'skipped'),
+               'seeded_missed': [r['name'] for r in selftest_bad],
+               'seeded_results': st['results']}
   except AnalysisError as e:
     say('ANALYSIS-ERROR property=%s %s' % (pid, e))
     return 2, [], out
@@ -228,9 +236,21 @@ def run_property(pid, tier='quick', seed=0, repo=None, write=True, quiet=False,
         'violations': len(violations),
     }
     ev['coverage'].update(extra)
+    if extra.get('seeded_variants'):
+      ev['coverage']['evaluations'] = sites + extra['seeded_variants']
     with open(os.path.join(edir, pid + '.json'), 'w') as f:
       json.dump(ev, f, indent=1, default=str)
-  return (1 if violations else 0), ctx.obs, out
+  if not quiet and extra.get('seeded_variants') is not None:
+    say('%s: self-test: %d seeded variants, %d reported, %d skipped, %d missed' % (
+        pid, extra['seeded_variants'], extra['seeded_reported'], extra['seeded_skipped'], len(selftest_bad)))
+  if violations:
+    return 1, ctx.obs, out
+  if selftest_bad:
+    for r in selftest_bad:
+      say('ANALYSIS-ERROR property=%s self-test: seeded variant `%s` applied but rule %s did not report it (%s)'
+          % (pid, r['name'], r.get('rule'), r.get('detail')))
+    return 2, ctx.obs, out
+  return 0, ctx.obs, out
 
 
 def main(argv=None):
